@@ -221,9 +221,7 @@ def run(ctx):
             q, _ = pg.query_model(g, st)
             exprs.append((["P%d" % fi], "N.add (if f16_class P%d %s then 1%%N else 0%%N) (if f1_class P%d %s then 2%%N else 0%%N)" % (fi, sx.to_coq(q), fi, sx.to_coq(q))))
             keys.append((fi, gi))
-    codes, fl = logic.coq_codes(ctx.work, "f16", defs, exprs, shard=max(20, len(exprs) // 16 + 1), imports=IMPORTS)
-    if fl:
-        raise core.CheckFailure("coq evaluation failed: %s" % (fl[0],))
+    codes = eg.coq_codes_retry(ctx, "f16", defs, exprs, IMPORTS, ["Props/C13.vo"], shard=max(20, len(exprs) // 16 + 1))
     in_f1 = {}
     for k, c in zip(keys, codes):
         in_class[k] = (c % 2 == 1)
